@@ -39,19 +39,19 @@ Notation c_load_missing := (c_load_missing bytes kid FIXED).
 (* the state invariant *)
 Definition SInv (s : fsys * document) : Prop := FsOK (fst s) /\ WFd (fst s) (snd s).
 
-Lemma c_save_container : forall fs (c : container) t pk, fst (c_save fs c t pk) = c_load_missing fs (c_listing bytes kid fs c) c.
+Lemma c_save_container : forall fs (c : container) t pk, fst (c_save fs c t pk) = c_load_missing fs (c_listing bytes kid FIXED fs c) c.
 Proof.
   intros. unfold Package.c_save. destruct pk; [destruct (save_zip _ _)|destruct t|destruct (lookup MIMETYPE _)]; reflexivity.
 Qed.
 
 Lemma load_all_listing : forall fs (c : container), WFc fs c ->
-  let c1 := c_load_missing fs (c_listing bytes kid fs c) c in
+  let c1 := c_load_missing fs (c_listing bytes kid FIXED fs c) c in
   (forall m, cB fs c1 m = cB fs c m) /\ WFc fs c1 /\ cpath _ c1 = cpath _ c /\ pkg _ c1 = pkg _ c
   /\ forall n, lookup n (parts _ c1) = None -> disk_lookup fs (cpath _ c1) n = None.
 Proof.
-  intros fs c W. destruct (c_load_missing_sem bytes kid fs (c_listing bytes kid fs c) c W) as [L1 [L2 [L3 [L4 [L5 L6]]]]].
+  intros fs c W. destruct (c_load_missing_sem bytes kid fs (c_listing bytes kid FIXED fs c) c W) as [L1 [L2 [L3 [L4 [L5 L6]]]]].
   split; [exact L1|]. split; [exact L2|]. split; [exact L3|]. split; [exact L4|].
-  intros n Ln. rewrite L3. destruct (in_dec Z.eq_dec n (c_listing bytes kid fs c)) as [Hi|Hi]; [apply L5; assumption|].
+  intros n Ln. rewrite L3. destruct (in_dec Z.eq_dec n (c_listing bytes kid FIXED fs c)) as [Hi|Hi]; [apply L5; assumption|].
   apply listing_covers_disk; [exact W|exact Hi|].
   destruct (lookup n (parts _ c)) eqn:L0; [|reflexivity]. exfalso. apply (L6 n); [congruence|exact Ln].
 Qed.
@@ -80,7 +80,7 @@ Proof.
   destruct (load_all_listing fs c W) as [A1 [A2 [A3 [A4 A5]]]].
   split; [exact A1|]. split; [exact A2|]. split; [exact A3|]. split; [exact A4|]. split; [exact A5|].
   intros fs' H. unfold Package.c_save in H.
-  set (c1 := c_load_missing fs (c_listing bytes kid fs c) c) in *.
+  set (c1 := c_load_missing fs (c_listing bytes kid FIXED fs c) c) in *.
   destruct pk.
   - destruct (save_zip _ c1) as [es|] eqn:Z; cbn [snd] in H; inversion H; subst fs'.
     apply FsOK_upsert; [exact F|]. intros es' E. inversion E; subst es'. rewrite zip_plain_keys.
